@@ -312,13 +312,27 @@ func (m *mutCtx) mutateDual(p *store.DualProof) string {
 			return "adv.nil"
 		}
 	case "nil":
-		switch rapid.IntRange(0, 2).Draw(rt, "nilWhat") {
+		switch rapid.IntRange(0, 5).Draw(rt, "nilWhat") {
 		case 0:
 			p.LinearProof = nil
 			return "nil.linear"
 		case 1:
 			p.LinearAdvanceProof = nil
 			return "nil.advance"
+		case 2:
+			p.SourceTxHeader = nil
+			return "nil.srcHdr"
+		case 3:
+			p.TargetTxHeader = nil
+			return "nil.tgtHdr"
+		case 4:
+			// a header version the hashing code does not know
+			if rapid.Bool().Draw(rt, "verWhich") && p.SourceTxHeader != nil {
+				p.SourceTxHeader.Version = 2
+			} else if p.TargetTxHeader != nil {
+				p.TargetTxHeader.Version = 2
+			}
+			return "nil.unknownVersion"
 		default:
 			p.InclusionProof, p.ConsistencyProof, p.LastInclusionProof = nil, nil, nil
 			return "nil.merkle"
